@@ -9,7 +9,8 @@ META = {
     "technique": "TLC model checking of Filter.tla on the bounded universe of MCFilter.tla (every enumerated (filter, message) "
                  "pair, invariants = what the statement says about Match) + TLC-enumerated (filter, messages, predicted "
                  "decisions) scenarios replayed on the real Filter::matches through every front-end that can express the "
-                 "filter (JSON with/without ...IsRegex keys, DLF with/without enableregexp_*, dlt-convert list, "
+                 "filter (JSON with/without ...IsRegex keys, DLF alone with every element / DLF with only its own elements as "
+                 "2nd or 3rd filter of a file after fully specified other filters, dlt-convert list, "
                  "ECU:APID:CTID through the `adlt convert --eac` binary, public fields) incl. the to_json/from_json round "
                  "trip; observations that differ from TLC's prediction, a random sample of the others and seeded random "
                  "filters/messages are validated by TLC against the contract FilterTrace.tla",
@@ -181,6 +182,8 @@ def check(ctx):
                         "--adlt", adlt, "--tmp", tmp, "--eac-max", "80" if quick else "1500",
                         "--nchars", "3" if quick else "4", "--drift-cap", "0" if quick else "12"], trace)
     st = info["stats"]
+    if not st.get("cases_dlfa") or not st.get("cases_dlf"):
+        raise c.ToolError("vacuity: no DLF case (alone with all elements / minimal after fully specified other filters)")
     # (e) TLC validates every recorded case against the contract (strict or with the known-finding deviations)
     sw = kf_consts()
     v = c.validate_trace(ctx, "filter", "FilterTrace.tla", trace, sw, timeout=3000, xmx="8g")
@@ -210,7 +213,8 @@ def check(ctx):
     for evs in cases.values():
         for e in evs:
             evk[e["ev"]] = evk.get(e["ev"], 0) + 1
-    ctx.extra["paths"] = {"type_bytes_covered": len(vmm_seen), "pairs_without_ext_header": noext, "pairs_negated": neg_pairs, "pairs_negated_matching": neg_match,
+    ctx.extra["paths"] = {"type_bytes_covered": len(vmm_seen), "dlf_cases_minimal_filter_after_fuller_filters": st.get("cases_dlfa", 0),
+                          "dlf_cases_alone_all_elements": st.get("cases_dlf", 0), "pairs_without_ext_header": noext, "pairs_negated": neg_pairs, "pairs_negated_matching": neg_match,
                           "pairs_disabled": disabled, "pairs_per_criterion_form": kinds, "trace_events": evk,
                           "kf_switches": sw, "kf_cases": sum(1 for k in v.known)}
     ctx.extra["binding_selftest"] = binding_selftest(ctx, cases, v, sw)
